@@ -12,8 +12,10 @@ This module runs the batches in parallel, and triages what is not a clean pass:
   crash        -> replayed alone; reproducible => violation, otherwise counted inconclusive;
   timeout      -> inconclusive;  the cases after a crashed/hung one are re-run as a new batch.
 """
+import itertools
 import os
 import subprocess
+import threading
 
 from hypothesis import HealthCheck, Phase, given, settings
 from hypothesis import seed as hseed
@@ -51,14 +53,13 @@ def _cmd(binary, P, path):
     return ["mpiexec", "--oversubscribe", "-n", str(P), binary, path]
 
 
-_solo_n = [0]
+_solo_n = itertools.count(1)
 
 
 def run_solo(prop, binary, P, text, env=None, timeout=120):
     """Run one case file alone.  -> (status, message); status in pass|fail|hang|crash|timeout."""
     rd = core.run_dir(prop)
-    _solo_n[0] += 1
-    base = os.path.join(rd, "solo%04d" % _solo_n[0])
+    base = os.path.join(rd, "solo%04d" % next(_solo_n))
     with open(base + ".case", "w") as f:
         f.write(text)
     out = base + ".json"
@@ -79,6 +80,13 @@ def run_solo(prop, binary, P, text, env=None, timeout=120):
     if p.returncode != 0:
         return "crash", "rc=%s %s" % (p.returncode, _tail(p.stdout))
     return "pass", ""
+
+
+def in_background(fn, *args):
+    """Run fn(*args) in a thread (the regression replays overlap with the batches); returns the thread to join."""
+    t = threading.Thread(target=fn, args=args, daemon=True)
+    t.start()
+    return t
 
 
 def _tail(s, n=700):
